@@ -611,3 +611,16 @@ package catalog
 //@   unclaimed #requires@NewHTTPResponseBody schema compilation is not under contract
 //@   unclaimed #requires@Update see above
 //@   unclaimed #requires@String see AddHTTPMethod
+
+// ---------------------------------------------------------------- serialisation entry points (C09)
+// Both forms are exactly the bytes encoding/json produced for the catalog (jsonOf / jsonIndentOf, deps.spec): nothing
+// rewrites the output afterwards, so the indented form is valid JSON and denotes the same value as the compact one
+// (a property of encoding/json, assumed).
+//@ func (*Catalog).ToJson
+//@   tag C09 C01
+//@   modifies nothing
+//@   ensures [C09] isnil(ret1) ==> same(ret0, jsonOf(box(*Catalog, c)))
+//@ func (*Catalog).ToJsonIndent
+//@   tag C09 C01
+//@   modifies nothing
+//@   ensures [C09] isnil(ret1) ==> same(ret0, jsonIndentOf(box(*Catalog, c), "", "  "))
